@@ -16,7 +16,9 @@ func treeSpecs() []Spec {
 		// every page handed out is wiped, and Reset wipes the whole backing buffer: the model's
 		// pages are empty when allocated (hand-modelled; the order of these statements is the content)
 		{Kind: KPin, Pkg: z, Func: "Tree.newNode", Match: "n := t.node(pageId); if t.freePage > 0 { t.freePage = n.uint64(0) }; zeroOut(n); n.setBit(bit); n.setAt(keyOffset(maxKeys), pageId); return n", Lean: "pinNewNodeWipes", Out: o},
-		{Kind: KPin, Pkg: z, Func: "Tree.Reset", Nth: -1, Match: "Memclr(t.buffer.buf); t.buffer.Reset(); t.buffer.AllocateOffset(minSize); t.data = t.buffer.Bytes(); t.stats = TreeStats{}; t.nextPage = 1; t.freePage = 0; t.initRootNode()", Lean: "pinResetWipes", Out: o},
+		// (only the wiping prefix is pinned: the order of the scalar resets that follow is immaterial, they
+		// are compared after every Reset by the tree / treem validators and Tree.Reset is generated whole)
+		{Kind: KPin, Pkg: z, Func: "Tree.Reset", Match: "Memclr(t.buffer.buf); t.buffer.Reset(); t.buffer.AllocateOffset(minSize); t.data = t.buffer.Bytes()", Lean: "pinResetWipes", Out: o},
 		{Kind: KFunc, Pkg: z, Func: "keyOffset", Lean: "keyOffset", Out: o},
 		{Kind: KFunc, Pkg: z, Func: "valOffset", Lean: "valOffset", Out: o},
 		// meta word: | bits (1 byte) | 3 free bytes | numKeys (4 bytes) |
